@@ -6,6 +6,7 @@ import SideVerif.Proofs.Calendar
 import SideVerif.Proofs.SpecFlat
 import SideVerif.Layer.Validate
 import SideVerif.Layer.GenSingle
+import SideVerif.Proofs.Reagg
 namespace SideVerif
 open Sql Cal
 
@@ -135,5 +136,40 @@ theorem C07_gran_non_time_rejected (g : VGraph) (ref base gr mn dn : String) (m 
 example : (match validateDimRef { models := [{ name := "o", source := .table "t", dims := [{ name := "s" }] }] } "o.s__month" with
     | .ok errs => errs == [.granOnNonTime "month" "s" "o"] | .error _ => false) = true := by decide
 example : trunc .week 1709214310 = 1708905600 := by decide
+
+/-! ### additive roll-up -/
+
+open Reagg in
+/-- **Additive roll-up.** For every pair of granularities where `P` refines `Q` (every `P` bucket lies inside one `Q`
+bucket — day→month, month→year, …; never week→month), every table, every row timestamp function `ts` and every
+measure expression `e`: re-aggregating the per-`P`-bucket SUMs by the `Q` bucket of the bucket start gives the same
+keyed results as SUM grouped by the `Q` bucket directly (as bags of (bucket, value) pairs). -/
+theorem C07_rollup_additive_sum (P Q : Gran) (h : refinesB P Q = true) (e : Row → Val) (ts : Row → Int) (l : List Row) :
+    (twoLevel (trunc Q) (fun _ => true) AggFn.sum.apply
+        (buckets (fun r => trunc P (ts r)) (fun g => AggFn.sum.apply (g.map e)) l)).Perm
+      ((groupBy (fun r => trunc Q (ts r)) l).map fun cg => (cg.1, AggFn.sum.apply (cg.2.map e))) := by
+  have hk : (fun r : Row => trunc Q (trunc P (ts r))) = fun r => trunc Q (ts r) := by
+    funext r; exact refinesB_sound h (ts r)
+  have hone : oneLevel (fun r => trunc P (ts r)) (trunc Q) (fun _ => true) (fun g => AggFn.sum.apply (g.map e)) l =
+      (groupBy (fun r => trunc Q (ts r)) l).map fun cg => (cg.1, AggFn.sum.apply (cg.2.map e)) := by
+    unfold oneLevel
+    rw [filter_const_true, hk]
+  rw [← hone]
+  exact sum_reaggregates e _ _ _ l
+
+open Reagg in
+/-- the same for COUNT (re-aggregated as a sum of counts, 0 on no bucket) -/
+theorem C07_rollup_additive_count (P Q : Gran) (h : refinesB P Q = true) (e : Row → Val) (ts : Row → Int) (l : List Row) :
+    (twoLevel (trunc Q) (fun _ => true) coalesceSum0
+        (buckets (fun r => trunc P (ts r)) (fun g => AggFn.count.apply (g.map e)) l)).Perm
+      ((groupBy (fun r => trunc Q (ts r)) l).map fun cg => (cg.1, AggFn.count.apply (cg.2.map e))) := by
+  have hk : (fun r : Row => trunc Q (trunc P (ts r))) = fun r => trunc Q (ts r) := by
+    funext r; exact refinesB_sound h (ts r)
+  have hone : oneLevel (fun r => trunc P (ts r)) (trunc Q) (fun _ => true) (fun g => AggFn.count.apply (g.map e)) l =
+      (groupBy (fun r => trunc Q (ts r)) l).map fun cg => (cg.1, AggFn.count.apply (cg.2.map e)) := by
+    unfold oneLevel
+    rw [filter_const_true, hk]
+  rw [← hone]
+  exact count_reaggregates e _ _ _ l
 
 end SideVerif
